@@ -123,8 +123,9 @@ CHECKS.update({
               "activation of the run is made to panic before its first read and after each read. After each fault: the drop does not panic, an "
               "executor panic reaches the caller, nothing else panics (process-wide hook + panics swallowed by detached tasks), the same query "
               "again and an edit + query of every node return from-scratch values, the engine shuts down and a new engine on the same store "
-              "answers from scratch. S: victim cancelled at every point while a second task queries the same root, all schedules with <= 1 (2) "
-              "deviations; cancelled sessions: the guarded rest of the interrupted operation and the commit-on-drop task in every order, <= 2 (3) "
+              "answers from scratch. S: victim cancelled at every point - and, separately, every executor activation made to panic before its first "
+              "read and after each read - while a second task queries the same root, all schedules with <= 1 (2) deviations (a waiter that is "
+              "never woken is a deadlock of the execution); cancelled sessions: the guarded rest of the interrupted operation and the commit-on-drop task in every order, <= 2 (3) "
               "deviations. Helpers: executors that hand their reads to spawned helper tasks and return without joining them (the helper closes a "
               "cycle / finishes after the executor returned), all schedules with <= 2 (3) deviations: what is published must account for the helpers."),
         design_ref="DESIGN.md 4/C05",
